@@ -40,7 +40,7 @@ PROFILE = gen.profile(
   tendon_spatial=0.5,
   p_mocap=0.15,
   p_weld=0.2,
-  p_massless=0.1,
+  p_massless=0.0,
   p_armature=0.5,
   p_gravcomp=0.2,
   actuators=3,
@@ -242,10 +242,11 @@ def run_case(case):
 
   for w in range(nworld):
     ctx = f"world {w}"
-    mref = worlds[w]
+    mref = copy.copy(worlds[w])  # mj_setConst works in place; worlds[w] keeps the inputs
     mjd = mujoco.MjData(mref)
     mw.apply_state_mj(mref, mjd, states[w])  # same mocap poses / qpos as the MJWarp Data of this world
     mujoco.mj_setConst(mref, mjd)
+    singular = bool(mref.nv and np.abs(mref.dof_invweight0).max() > 1e8)
     for n, allow in DERIVED.items():
       if n not in got:
         continue
@@ -257,6 +258,10 @@ def run_case(case):
         continue
       g = g[w].reshape(-1)[: r.size] if n not in ("actuator_biasprm", "eq_data") else g[w].reshape(r.shape[0], -1)[:, : r.shape[1]].reshape(-1)
       sc = max(1.0, float(np.abs(r).max())) if r.size else 1.0
+      if singular and DERIVED[n] > 1e-5:
+        rec.inconcl(f"{n}: singular inertia at qpos0 (MuJoCo reports dof_invweight0 > 1e8)")
+        rec.count("singular_inertia_fields")
+        continue
       if n == "eq_data":
         # judged per equality so that the connect / weld mechanisms keep apart
         for e in range(mref.neq):
@@ -282,7 +287,7 @@ def run_case(case):
         continue
       if n == "body_invweight0":
         gm, rm = g.reshape(-1, 2), r.reshape(-1, 2)
-        fb = ((rm[:, 0] == 0) != (rm[:, 1] == 0))  # exactly one component is zero in MuJoCo
+        fb = ((np.abs(rm[:, 0]) < 1e-12) != (np.abs(rm[:, 1]) < 1e-12))  # exactly one component is zero in MuJoCo
         if fb.any():
           judge_el(rec, n + "_one_zero_component", gm[fb], rm[fb], allow, 0.0, scale=sc, sig=n + ":zero-component-replaced-by-the-other", ctx=ctx)
           rec.cover("body_invweight0_one_zero_component", int(fb.sum()))
